@@ -154,6 +154,8 @@ class TextFileStorage(Storage[str]):
             self._index[:] = []
             self._stored_cnt.value = 0
             self._waiting_for.value = 0
+            # the file of this object is gone as well: a later store registers a new one
+            self._process_identifier = None
 
     def is_contiguous(self) -> bool:
         """
